@@ -78,7 +78,11 @@ def call(a):
         mod = importlib.import_module("xfab." + modname)
         try:
             # the default search range is uvw = 3; other values go through the optional argument
-            res[modname] = [float(x) for x in (mod.reduce_cell(cell) if uvw == 3 else mod.reduce_cell(cell, uvw=uvw))]
+            if uvw == 3:
+                r_, m_ = L.twice(mod.reduce_cell, list(cell) if modname == "tools" else np.array(cell))
+            else:
+                r_, m_ = L.twice(lambda c_, _m=mod, _u=uvw: _m.reduce_cell(c_, uvw=_u), list(cell))
+            res[modname] = [float(x) for x in r_] if not m_ else "EXC " + m_
         except Exception as ex:
             res[modname] = "EXC " + repr(ex)
     return cell, res
